@@ -106,6 +106,7 @@ func C05() int {
 			c.Sample(map[string]any{"flags": sn.Flags.String(), "input": short(sn.Item.Raw, 500), "output": short(sn.Res.Out, 500)})
 		}
 	})
+	reportBatchAnomalies(c)
 	c.Set("leaves_by_class_and_slot_family", cells)
 	c.Set("flag_sets", flagNames(fsets))
 	thin := 0
